@@ -384,7 +384,7 @@ func init() {
 				if sp.viaCallee != nil && sp.viaCallee == sync {
 					continue
 				}
-				if okp, _ := c.ge().guardedLocal(f, sp.at, guardCallOK("sync ok", "libs/autofile#AutoFile.Sync"), 0); !okp {
+				if okp, _ := c.ge().guardedLocal(f, sp.at, guardCallOK("sync ok", "libs/autofile#AutoFile.Sync"), 2); !okp {
 					okAll = false
 				}
 			}
